@@ -35,12 +35,12 @@ pub fn prop_info(prop: &str) -> PropInfo {
         "C02" | "C03" | "C04" | "C05" | "C10" | "C14" => PropInfo {
             engine: "resolver-sim",
             quick: match prop {
-                "C03" | "C04" => 40_000,
-                _ => 24_000,
+                "C03" | "C04" => 200_000,
+                _ => 120_000,
             },
             thorough: match prop {
-                "C03" | "C04" => 1_500_000,
-                _ => 800_000,
+                "C03" | "C04" => 6_000_000,
+                _ => 4_000_000,
             },
             rule: resolver_rule,
             real: REAL_RESOLVER.to_vec(),
@@ -52,10 +52,62 @@ pub fn prop_info(prop: &str) -> PropInfo {
                 "seeded search: a clean batch is evidence, not proof",
             ],
         },
+        "C07" => PropInfo {
+            engine: "stage-sim",
+            quick: 30_000,
+            thorough: 600_000,
+            rule: "one world = one template (generated program or example) with drawn arguments (split into 1-3 partial applications), UTxO sets per query (optionally applied block by block) and fee; 6 tape-drawn schedules: a permutation of the pending stage operations with optional interleaved reduce / compiler-op passes (compiler pass only when every built-in's operands are literal), each closed by the same saturation; compared with the reference schedule by canonical bytes. evaluations = schedules run; non-trivial = at least two distinct schedules in the world; distinct = digest of (template, distinct schedule traces, reference state)",
+            real: vec![
+                "tx3-lang front end (templates are lowered from source text)",
+                "tx3-tir Apply::{apply_args,apply_inputs,apply_fees,reduce}, Node::apply",
+                "tx3-cardano Compiler::reduce_op for compiler-evaluated built-ins",
+            ],
+            stubbed: vec!["the caller that sequences the stages (the scheduler)", "process entropy (per-world hash seed)"],
+            assumptions: vec![
+                "canon() normalises only order inside UtxoSets / hash maps and Assets lists as per-class sums with zero entries dropped",
+                "a compiler pass is in the quantifier only when nothing but literals and other compiler ops sits below every EvalCompiler node",
+                "inputs whose datum the template reads receive singleton UTxO sets (`first of a HashSet` is an entropy effect, not a schedule effect)",
+                "outcomes are compared as Ok(canonical state) or Err; which stage reports an error may depend on the order",
+            ],
+        },
+        "C11" => PropInfo {
+            engine: "wire-sim",
+            quick: 60_000,
+            thorough: 1_500_000,
+            rule: "one world = one TIR (lowered from a generated program or example, optionally with arguments / inputs / fees applied and reduced) encoded by the real to_bytes in a producer world, passed through a channel that is fault-free (2 in 5) or applies 1-4 damages (bit flip, truncation, chunk duplication, overwrite, splice, nesting bomb up to depth 100000, huge length header, random bytes, version string), and decoded by the real TirVersion::try_from + from_bytes in a consumer thread with different hash entropy and the default 2 MiB stack. evaluations = artifacts decoded; every world is non-trivial; distinct = digest of the bytes on the wire + version",
+            real: vec![
+                "tx3-lang front end, tx3-tir Apply/reduce (producer side)",
+                "tx3-tir encoding::to_bytes / from_bytes / TirVersion::try_from with real ciborium",
+                "tx3-tir find_params / find_queries / apply_* / reduce for the meaning comparison",
+            ],
+            stubbed: vec!["the channel (file / network) between producer and consumer", "process entropy of the two sides"],
+            assumptions: vec![
+                "meaning is compared through canon(): order inside hash containers and zero / split asset entries are immaterial",
+                "a damaged artifact that still decodes is not a C11 violation (no checksum is promised); it is forwarded to the back end under C14",
+                "abort / stack overflow in the consumer kills the worker process; the supervisor pins the world and reports it",
+            ],
+        },
+        "C16" => PropInfo {
+            engine: "wire-sim",
+            quick: 40_000,
+            thorough: 1_000_000,
+            rule: "one world = (a) for each argument type one intended value rendered through a tape-chosen admissible encoding and one ill-formed rendering, through the real from_json; (b) one resolve request built by an independent client model (parameters split between args and env, undeclared extras, hex/base64 envelope with any of the field aliases), sent fault-free (1 in 2), with 1-3 message faults (content damage, encoding tag, version, field loss / move / duplication, type confusion, field replaced by arbitrary JSON, TIR byte damage) or as an arbitrary JSON document, through the real serde_json::from_value::<ResolveParams> + parse_resolve_request in a consumer thread. evaluations = from_json calls + requests; distinct = digest of rendered values and request document",
+            real: vec![
+                "tx3-resolver interop::from_json and helpers",
+                "tx3-resolver trp::parse_resolve_request, ResolveParams / TirEnvelope deserialisation",
+                "tx3-tir from_bytes, find_params",
+            ],
+            stubbed: vec!["the client (independent encoder of argument values)", "the JSON channel and its faults"],
+            assumptions: vec![
+                "admissible encodings are the ones the property lists; \"+5\"-style decimal strings and repeated 0x prefixes are not probed",
+                "J2 is judged only on fault-free requests; under faults only `no panic` is judged",
+                "a client never supplies one key under both args and env in the fault-free stratum",
+            ],
+        },
         "C18" => PropInfo {
             engine: "entropy-sim",
             quick: 3_000,
-            thorough: 100_000,
+            thorough: 60_000,
             rule: "one world = one program (every example under /repo/examples once, then generated programs rich in multi-field cardano:: directives): parse+analyze+lower+to_bytes in 8 threads with distinct tape-drawn hash seeds plus 20 repetitions on one thread; for every example and 1 in 24 generated programs also `tx3c build --emit tii` in 3 fresh processes under the LD_PRELOAD entropy shim. evaluations = encodings compared; non-trivial = the front end accepts the program; distinct = distinct digests of the encoded bytes",
             real: vec![
                 "tx3-lang parser/analyzer/lowering",
@@ -71,7 +123,7 @@ pub fn prop_info(prop: &str) -> PropInfo {
         },
         "C20" => PropInfo {
             engine: "resolver-sim",
-            quick: 6_000,
+            quick: 24_000,
             thorough: 300_000,
             rule: "one world = one tape: program, static ledger, a history of 0..4 resolutions on one compiler instance with tape-chosen endings (success, error, store error at call k, cancel after poll k, compiler failure at round r), then the target on that instance and on a fresh one, both on fresh threads with the same hash seed. In a quarter of the worlds with a history the ending of the last element is swept exhaustively over all its store calls, await points and rounds. evaluations = (history, target) pairs compared; non-trivial = history not empty and target has all its arguments; distinct = distinct digests of the per-arm outcome log",
             real: REAL_RESOLVER.to_vec(),
@@ -96,9 +148,19 @@ pub fn prop_info(prop: &str) -> PropInfo {
 
 pub fn run_world(prop: &str, tier: Tier, n: u64, tape: Tape) -> WorldReport {
     match prop {
-        "C02" | "C03" | "C04" | "C05" | "C10" | "C14" => crate::p_resolver::world(prop, tier, n, tape),
+        "C02" | "C03" | "C04" | "C05" | "C10" => crate::p_resolver::world(prop, tier, n, tape),
+        // C14 listens to every engine
+        "C14" => match n % 8 {
+            5 => crate::p_wire::world_c11(tier, n, tape),
+            6 => crate::p_wire::world_c16(tier, n, tape),
+            7 => crate::p_stage::world(tier, n, tape),
+            _ => crate::p_resolver::world(prop, tier, n, tape),
+        },
+        "C11" => crate::p_wire::world_c11(tier, n, tape),
+        "C16" => crate::p_wire::world_c16(tier, n, tape),
         "C20" => crate::p_c20::world(tier, n, tape),
         "C18" => crate::p_entropy::world_c18(tier, n, tape),
+        "C07" => crate::p_stage::world(tier, n, tape),
         _ => WorldReport {
             harness_error: Some(format!("no engine for property {prop}")),
             ..Default::default()
